@@ -9,32 +9,46 @@ ID = "C10"
 LEVEL = "model_checking"
 
 
-def menu_for(kind, L):
-    return H.pwc_menu(L) if kind == "pwc" else H.pwl_menu(L)
+def grid_of(spec):
+    return H.reg(spec[1]) if spec[0] == "reg" else H.near(spec[1])
+
+
+def menu_for(kind, spec):
+    G = grid_of(spec)
+    return H.pwc_menu(G) if kind == "pwc" else H.pwl_menu(G)
 
 
 def plan(tier):
-    Ls = [1, 2, 3, 4, 5, 6, 7] if tier == "quick" else [1, 2, 3, 4, 5, 6, 7, 8, 9]
+    if tier == "quick":
+        specs = [("reg", L) for L in (1, 2, 3, 4, 5, 6, 7)] + [("near", 2), ("near", 3), ("near", 4)]
+    else:
+        specs = [("reg", L) for L in (1, 2, 3, 4, 5, 6, 7, 8, 9)] + \
+            [("near", 2), ("near", 3), ("near", 4), ("near", 5)]
     tasks, desc = [], []
     for kind in ("pwc", "pwl"):
-        for L in Ls:
-            n = len(menu_for(kind, L))
+        for spec in specs:
+            n = len(menu_for(kind, spec))
+            cells = len(grid_of(spec)) - 1
             nsh = max(1, min(16, n // 4))
             for s in range(nsh):
-                tasks.append({"backend": "py", "kind": kind, "L": L, "shard": s, "nshards": nsh})
-            desc.append({"class": kind, "support_cells": L, "functions": n,
-                         "intervals": "all a<b on the half-lattice (%d)" % ((2 * L + 1) * L),
-                         "interval_lists": "all ordered pairs of disjoint half-lattice intervals"
-                                           if L <= 4 else "adjacent pairs",
-                         "evaluation_times": 2 * L + 1})
+                tasks.append({"backend": "py", "kind": kind, "grid": list(spec), "shard": s,
+                              "nshards": nsh})
+            desc.append({"class": kind, "grid": list(spec), "grid_cells": cells, "functions": n,
+                         "intervals": "all a<b on the half-grid (%d)" % ((2 * cells + 1) * cells),
+                         "interval_lists": "all ordered pairs of disjoint half-grid intervals"
+                                           if cells <= 4 else "adjacent pairs",
+                         "evaluation_times": 2 * cells + 1})
     return {
         "tasks": tasks,
         "bounds": {"explorations": desc},
         "rule": "every function of the operand menu (all breakpoint subsets of the interior "
-                "lattice points x value patterns: positive, negative, alternating, Python ints / "
-                "continuous ramps, jumps, negative slopes) x every interval a<b on the "
-                "half-lattice (ends on and between breakpoints, inside one piece, on the end "
-                "points) x every half-lattice evaluation time; distinct = distinct functions",
+                "grid points x value patterns: positive, negative, alternating, Python ints / "
+                "continuous ramps, jumps, negative slopes) x every interval a<b on the half-grid "
+                "(grid points and cell midpoints: ends on and between breakpoints, inside one "
+                "piece, on the end points) x every half-grid evaluation time; 'reg' grids are the "
+                "time lattice, 'near' grids add points 2^-30 next to lattice points so that times "
+                "and interval ends very close to, but not on, a breakpoint are covered; distinct = "
+                "distinct functions",
         "exhaustive": True,
         "assumptions": ["breakpoints on the lattice, interval ends and times on the half-lattice, "
                         "dyadic values", "backend-independent code (no compiled variant exists)"],
@@ -44,16 +58,18 @@ def plan(tier):
     }
 
 
-def check_function(r, kind, L, name, args, model, be="py"):
+def check_function(r, kind, spec, name, args, model, be="py"):
     f = H.build(kind, args)
     snap = H.snapshot(kind, f)
-    case0 = {"kind": kind, "L": L, "function": name, "args": args}
+    G = grid_of(spec)
+    L = len(G) - 1
+    case0 = {"kind": kind, "grid": list(spec), "function": name, "args": args}
 
     def viol(sub, extra, exp, obs, msg):
         r.violation(ID, sub, be, "%s/%s" % (sub, kind), dict(case0, **extra), exp, obs, msg,
                     (L, len(name)))
 
-    pts = [T0 + j * U / 2 for j in range(2 * L + 1)]
+    pts = [H.fpos(G, j) for j in range(2 * L + 1)]
     n2 = 2 * L
     # ---- integrals over every interval
     I = {}
@@ -75,7 +91,7 @@ def check_function(r, kind, L, name, args, model, be="py"):
                 viol("integral", {"interval": iv}, ve, v, "integral over [a,b] is not the exact "
                      "Riemann integral")
                 return
-            if abs(av - ve / (pts[b2] - pts[a2])) > TOL:
+            if abs(av - ve / (pts[b2] - pts[a2])) > TOL + 1e-13 / (pts[b2] - pts[a2]):
                 viol("avrg", {"interval": iv}, ve / (pts[b2] - pts[a2]), av,
                      "avrg is not integral / interval length")
                 return
@@ -117,7 +133,7 @@ def check_function(r, kind, L, name, args, model, be="py"):
             return
         ae = float(model.integral(*p) + model.integral(*q)) / \
             ((pts[p[1]] - pts[p[0]]) + (pts[q[1]] - pts[q[0]]))
-        if abs(av - ae) > TOL:
+        if abs(av - ae) > TOL + 1e-13 / ((pts[p[1]] - pts[p[0]]) + (pts[q[1]] - pts[q[0]])):
             viol("avrg.list", {"intervals": lst}, ae, av,
                  "avrg over several intervals is not summed integrals / summed lengths")
             return
@@ -163,6 +179,7 @@ def check_function(r, kind, L, name, args, model, be="py"):
     # ---- bounds validation (constant pieces only)
     if kind == "pwc":
         for iv in ([pts[0] - U, pts[1]], [pts[0], pts[-1] + U], [pts[-1], pts[0]],
+                   [pts[0] - H.DELTA, pts[1]], [pts[0], pts[-1] + H.DELTA],
                    [pts[1], pts[0]] if len(pts) > 1 else [pts[-1], pts[0]]):
             try:
                 v = f.integral(iv)
@@ -184,15 +201,15 @@ def check_function(r, kind, L, name, args, model, be="py"):
 
 def run_task(task):
     r = Result()
-    kind, L = task["kind"], task["L"]
-    for i, (name, args, model) in enumerate(menu_for(kind, L)):
+    kind, spec = task["kind"], tuple(task["grid"])
+    for i, (name, args, model) in enumerate(menu_for(kind, spec)):
         if i % task["nshards"] != task["shard"]:
             continue
         r.states += 1
         r.transitions += 1
         r.traces += 1
         r.sigs.add(hash(model.key()) & 0xffffffffffff)
-        check_function(r, kind, L, name, args, model)
+        check_function(r, kind, spec, name, args, model)
         if i % 7 == 0:
             r.sample({"kind": kind, "function": name, "x": args[0], "values": args[1:]})
     return r
@@ -201,7 +218,7 @@ def run_task(task):
 def replay(rec):
     r = Result()
     c = rec["case"]
-    for name, args, model in menu_for(c["kind"], c["L"]):
+    for name, args, model in menu_for(c["kind"], tuple(c["grid"])):
         if name == c["function"]:
-            check_function(r, c["kind"], c["L"], name, args, model)
+            check_function(r, c["kind"], tuple(c["grid"]), name, args, model)
     return r
